@@ -408,6 +408,8 @@ class Histogram1D(ObjectWithBinning, HistogramBase):
     ) -> None:
         # TODO: Unify with HistogramBase
         values_array, array_mask = extract_1d_array(values, dropna=dropna)
+        if values_array is not None and values_array.size == 0:
+            return  # Nothing to add (and bins of an empty adaptive histogram cannot be evaluated)
         if self._binning.is_adaptive():
             map = self._binning.force_bin_existence(values_array)
             self._reshape_data(self._binning.bin_count, map)
